@@ -277,7 +277,7 @@ pub fn run(ctx: &Ctx) -> i32 {
     report.assumptions = vec!["files and directories are created under /verif/.build/<work>/scratch and removed afterwards".into(), "files > 4 GiB (u32 truncation) are not exercised".into()];
     let schema = refcodec::zvt_schema();
     let pools = Pools::build(&schema, ctx.seed, 6);
-    let n = ctx.by(8_000usize, 300_000usize);
+    let n = ctx.by(4_000usize, 300_000usize);
     let threads = ctx.threads;
     let seed = ctx.seed;
     let quick = ctx.quick();
